@@ -269,9 +269,9 @@ pub fn validate_assembly(p: &zydeco_assembly::syntax::AssemblyProgram) -> Vec<St
                         if !has_prog(target) {
                             problems.push(format!("{id:?}: branch to undefined program {target:?}"));
                         }
-                        if !tags.insert(tag.idx) {
-                            problems.push(format!("{id:?}: duplicate branch tag {}", tag.idx));
-                        }
+                        // a repeated tag (a redundant source arm of the same constructor) is not among the stated
+                        // invariants: the first arm wins, as in the source
+                        let _ = tags.insert(tag.idx);
                     }
                 }
                 | Terminator::PopJump(_) | Terminator::Abort(_) | Terminator::Extern(_) => {}
@@ -502,6 +502,38 @@ pub fn run(ctx: &Ctx) -> Report {
                 Ok(())
             }
         }
+    });
+    report.absorb(r);
+    // text streams: record programs (projections) and pattern-row programs
+    let text_stream = |text: &str, stats: &mut Stats| -> Result<(), Fail> {
+        let dir = thread_dir(ctx);
+        let (_session, analyzed) = h::write_and_analyze(&dir, text);
+        let case = |extra: Value| json!({"source": text[text.find("begin\n").or_else(|| text.rfind("in\n(")).unwrap_or(0)..].to_string(), "info": extra});
+        if let Analyzed::Executable(exe, _) = analyzed {
+            stats.eval();
+            match drive::lower(exe) {
+                | Lowered::Panic(p) => {
+                    return Err(Fail::new(format!("lower-{}", p.signature()), "lowering to return", p.describe()).with(case(json!({"stage": "lower"}))));
+                }
+                | Lowered::Refused(_) => stats.count("text:refused"),
+                | Lowered::Ok(b) => {
+                    check_backend(&b, &case, stats)?;
+                    stats.nontrivial(hash_of(text));
+                }
+            }
+        }
+        Ok(())
+    };
+    let cases = ctx.tier.pick(300, 10_000);
+    let r = run_tapes(ctx, "records", cases, 60, |tape, stats| {
+        let (text, _, _) = crate::props::records::record_program(ctx, tape);
+        text_stream(&text, stats)
+    });
+    report.absorb(r);
+    let cases = ctx.tier.pick(300, 10_000);
+    let r = run_tapes(ctx, "patterns", cases, 120, |tape, stats| match crate::props::c19::pattern_program(ctx, tape) {
+        | Some(text) => text_stream(&text, stats),
+        | None => Ok(()),
     });
     report.absorb(r);
     let cases = ctx.tier.pick(700, 40_000);
